@@ -501,7 +501,8 @@ fn proxy_non_frame_messages(args: &Args, rep: &mut Report, rt: &tokio::runtime::
             match kind {
                 0 => { let k = 1 + r.usize_below(60); msg.extend_from_slice(&r.bytes(k)); }
                 1 => msg.extend_from_slice(&frame),
-                _ => msg.truncate(48 + r.usize_below(frame.len() - 47).min(frame.len() - 49).max(0)),
+                // a strict, non-empty prefix of the frame (cut inside the header, the query or the body)
+                _ => msg.truncate(1 + r.usize_below(frame.len() - 1)),
             }
             *ush.reply.lock().unwrap() = Reply::default();
             let _ = ush.take_frames();
